@@ -98,6 +98,27 @@ fn list_rows(file: &Path) -> String {
 }
 
 /// C14: random command histories.
+/// `n128;metadata words;index words;data length:FNV-1a of the data bytes` (trailing zero words trimmed).
+fn file_dump(file: &Path) -> String {
+  let b = match fs::read(file) { Ok(b) => b, Err(_) => return "nofile".to_string() };
+  if b.len() < 8 { return format!("short:{}", b.len()); }
+  let word = |i: usize| -> u64 { if 8 * i + 8 <= b.len() { u64::from_le_bytes(b[8 * i..8 * i + 8].try_into().unwrap()) } else { 0 } };
+  let n128 = word(0) as usize;
+  if n128 == 0 || n128 > 64 || b.len() < n128 * 2048 { return format!("bad-header:{}:{}", n128, b.len()); }
+  let cap = n128 * 128 - 1;
+  let trim = |v: Vec<u64>| -> String {
+    let mut v = v;
+    while v.last() == Some(&0) { v.pop(); }
+    if v.is_empty() { "_".to_string() } else { v.iter().map(|x| x.to_string()).collect::<Vec<_>>().join(",") }
+  };
+  let meta: Vec<u64> = (1..1 + cap).map(word).collect();
+  let index: Vec<u64> = (1 + cap..2 + 2 * cap).map(word).collect();
+  let data = &b[n128 * 2048..];
+  let mut h: u64 = 14695981039346656037;
+  for x in data { h = (h ^ (*x as u64)).wrapping_mul(1099511628211); }
+  format!("{};{};{};{}:{}", n128, trim(meta), trim(index), data.len(), h)
+}
+
 pub fn histories(sink: &mut Sink, rng: &mut Rng, thorough: bool, work: &Path) {
   let n_hist = if thorough { 400 } else { 45 };
   for h in 0..n_hist {
@@ -146,6 +167,8 @@ pub fn histories(sink: &mut Sink, rng: &mut Rng, thorough: bool, work: &Path) {
     let mut emit = |sink: &mut Sink, hist: &Vec<String>, ok: bool, file: &Path| {
       let ans = if !ok && !file.exists() { "err#nofile".to_string() } else { format!("{}#{}", if ok { "ok" } else { "err" }, list_rows(file)) };
       sink.emit(&format!("ms {} {}", n128, hist.join("|")), &ans, hist.len() > 1);
+      // the FILE itself against the word / byte level model: every metadata and index word, the data bytes
+      sink.emit(&format!("msf {} {}", n128, hist.join("|")), &file_dump(file), hist.len() > 1);
     };
     emit(sink, &hist, r.ok, &file);
     if !r.ok {
